@@ -17,6 +17,7 @@ sys.path.insert(0, os.path.dirname(os.path.abspath(__file__)))
 from common import *          # noqa
 import ref_frost as F
 import ref_ed
+import c19
 
 
 def hx(b):
@@ -184,7 +185,7 @@ def protocol_run(rng, S, t, n, exhaustive_subset=None, big_idents=None):
     cl.add("honest-run")
     # --- corruptions: one field of one message at a time, judged by the reference
     for _ in range(6):
-        m = rng.randrange(7)
+        m = rng.randrange(8)
         i = rng.choice(signers)
         if m == 0:
             # altered signature share value
@@ -254,6 +255,46 @@ def protocol_run(rng, S, t, n, exhaustive_subset=None, big_idents=None):
             dec = getattr(S, "dec_" + ty)(v2)
             lines.append(T + "dec %s %s" % (ty, hx(v2))); exp.append("OK N" if dec is None else None)
             cl.add("wire-roundtrip")
+            v3 = c19.altform(rng, name, ty, val)
+            if v3 is not None:
+                # one embedded point re-encoded in another valid SEC1 format: not the wire format, must be refused
+                dec = getattr(S, "dec_" + ty)(v3)
+                lines.append(T + "dec %s %s" % (ty, hx(v3))); exp.append("OK N" if dec is None else None)
+                cl.add("point-in-other-valid-format")
+        elif m == 7:
+            # one scalar field of one wire object replaced by a non-canonical encoding of the same value (value + k*order, or a set bit in
+            # the padding above the order): every decoder must refuse it, and the verifiers with it
+            NS, NE = S.NS, S.NE
+            ty, val, offs = rng.choice([("share", shares_b[i], [0, NS]), ("signer_pk", spks_b[i], [0]), ("nonce", nonces_b[i], [0, NS, 2 * NS]),
+                                        ("commitment", comms_b[i], [0]), ("sig_share", ss_b[i], [0, NS]), ("signature", sig_b, [NE]),
+                                        ("group_sk", gsk_b, [0]), ("commitment_list", cl_b, [k * S.ENC_LEN["commitment"] for k in range(len(chosen))])])
+            off = rng.choice(offs)
+            bo = "big" if S.big_endian else "little"
+            v = int.from_bytes(val[off:off + NS], bo)
+            room = ((1 << (8 * NS)) - 1 - v) // S.order
+            if room >= 1:
+                how = rng.randrange(3)
+                if how == 0:
+                    v2 = v + S.order
+                elif how == 1:
+                    v2 = v + S.order * rng.randrange(1, room + 1)
+                else:
+                    # a single bit above the order's length (for ed448: inside the 57th byte)
+                    hb = [b for b in range(S.order.bit_length(), 8 * NS)]
+                    v2 = v | (1 << rng.choice(hb)) if hb else v + S.order
+                bad = val[:off] + v2.to_bytes(NS, bo) + val[off + NS:]
+                d = getattr(S, "dec_" + ty)(bad)
+                lines.append(T + "dec %s %s" % (ty, bad.hex())); exp.append("OK N" if d is None else "ORACLE-INCONSISTENT: reference accepts a non-canonical scalar")
+                if ty == "signature":
+                    lines.append(T + "verify_esig %s %s %s" % (gpk_b.hex(), bad.hex(), hx(msg))); exp.append("OK F")
+                    lines.append(T + "verify %s %s %s" % (gpk_b.hex(), bad.hex(), hx(msg))); exp.append("OK NODEC 1")
+                elif ty == "sig_share":
+                    lines.append(T + "verify_share %s %s %s %s %s" % (spks_b[i].hex(), bad.hex(), cl_b.hex(), gpk_b.hex(), hx(msg))); exp.append("OK NODEC 1")
+                cl.add("noncanonical-scalar")
+                cl.add("noncanonical-scalar:" + ty)
+                cl.add(name + ":noncanonical-scalar")
+                if v2 >> (8 * (NS - 1)) and not (v >> (8 * (NS - 1))):
+                    cl.add("noncanonical-scalar:top-byte")
         else:
             # group public key replaced
             g2 = S.enc_group_pk(S.G_mulgen(rng.randrange(1, S.order)))
@@ -359,8 +400,9 @@ def main(argv):
         m = run_sharded("c15", "gen", (runs, exh), [(c, exes[c]) for c in cfgs], a.seed, timeout=7200)
         rep.merge(m)
         req = [s + ":run" for s in F.SUITES] + [s + ":split-big" for s in F.SUITES]
+        req += [s + ":noncanonical-scalar" for s in F.SUITES] + ["noncanonical-scalar:top-byte"]
         req += ["honest-run", "duplicate-commitment", "corrupt-sig-share", "corrupt-commitment", "corrupt-signature", "corrupt-share-secret", "corrupt-vss",
-                "share-wrong-signer", "share-ident-altered", "other-message", "wire-roundtrip", "rfc8032-interop", "signer-not-in-list", "other-group-key", "identifiers>255"]
+                "share-wrong-signer", "share-ident-altered", "other-message", "wire-roundtrip", "rfc8032-interop", "signer-not-in-list", "other-group-key", "identifiers>255", "point-in-other-valid-format"]
         rep.require(*req)
     except Inconclusive as e:
         rep.incon.append(str(e))
